@@ -260,3 +260,132 @@ def transform_float(l, cart_order=None, sph_order=None):
     import numpy as np
     ex = transform_exact(l, cart_order, sph_order)
     return np.array([[s * math.sqrt(float(sq)) for (s, sq) in row] for row in ex])
+
+
+# ---------------------------------------------------------------- Rys.tla
+def ptrim(p):
+    p = list(p)
+    while len(p) > 1 and p[-1] == 0:
+        p.pop()
+    return p
+
+
+def ppowers(c, n):
+    out = [[Fr(1)]]
+    for _ in range(n):
+        out.append(pmul(out[-1], c))
+    return out
+
+
+def bpowlin(c, n):
+    """(tau + c(s))**n as a list over tau-powers of s-polynomials."""
+    pw = ppowers(c, n)
+    return [pscale(math.comb(n, k), pw[n - k]) for k in range(n + 1)]
+
+
+def bmul(f, g):
+    out = [[Fr(0)] for _ in range(len(f) + len(g) - 1)]
+    for i, a in enumerate(f):
+        for j, b in enumerate(g):
+            out[i + j] = padd(out[i + j], pmul(a, b))
+    return out
+
+
+def rys1d_table(q, la, lb):
+    """tab[j][i] = Rys1D(q, i, j): polynomial in s (list of Fractions)."""
+    QA = [q.pa, -q.pc]
+    QB = [q.pb, -q.pc]
+    fa = [bpowlin(QA, i) for i in range(la + 1)]
+    fb = [bpowlin(QB, j) for j in range(lb + 1)]
+    oms = ppowers([Fr(1), Fr(-1)], (la + lb) // 2)
+    w = []
+    for n in range(la + lb + 1):
+        w.append([Fr(0)] if n % 2 else pscale(dfm1(n) * q.i2p ** (n // 2), oms[n // 2]))
+    tab = []
+    for j in range(lb + 1):
+        row = []
+        for i in range(la + 1):
+            f = bmul(fa[i], fb[j])
+            acc = [Fr(0)]
+            for n, c in enumerate(f):
+                acc = padd(acc, pmul(c, w[n]))
+            row.append(ptrim(acc))
+        tab.append(row)
+    return tab
+
+
+class Axis2:
+    """One axis of a primitive quartet: Rys!Derive2."""
+
+    def __init__(self, a, b, c, d, A, B, C, D):
+        a, b, c, d, A, B, C, D = map(Fr, (a, b, c, d, A, B, C, D))
+        self.p, self.q = a + b, c + d
+        self.ipq = 1 / (self.p + self.q)
+        Pc = (a * A + b * B) / self.p
+        Qc = (c * C + d * D) / self.q
+        Wc = (self.p * Pc + self.q * Qc) * self.ipq
+        self.pa, self.pb, self.qc, self.qd = Pc - A, Pc - B, Qc - C, Qc - D
+        self.wp, self.wq, self.pq = Wc - Pc, Wc - Qc, Pc - Qc
+        h = Fr(1, 2)
+        self.v1 = [h / self.p, (self.ipq - 1 / self.p) * h]
+        self.v2 = [h / self.q, (self.ipq - 1 / self.q) * h]
+        self.cv = [Fr(0), self.ipq * h]
+
+
+def iss_table(d, nmax, mmax):
+    pv1 = ppowers(d.v1, nmax // 2)
+    pv2 = ppowers(d.v2, mmax // 2)
+    pcv = ppowers(d.cv, min(nmax, mmax))
+    E = []
+    for n in range(nmax + 1):
+        row = []
+        for m in range(mmax + 1):
+            acc = [Fr(0)]
+            for c in range(min(n, m) + 1):
+                if (n - c) % 2 == 0 and (m - c) % 2 == 0:
+                    h1, h2 = (n - c) // 2, (m - c) // 2
+                    coef = Fr(math.factorial(n) * math.factorial(m),
+                              math.factorial(c) * math.factorial(h1) * math.factorial(h2) * 2 ** (h1 + h2))
+                    acc = padd(acc, pscale(coef, pmul(pmul(pv1[h1], pv2[h2]), pcv[c])))
+            row.append(acc)
+        E.append(row)
+    return E
+
+
+def rys2d_table(d, la, lb, lc, ld):
+    """tab[i][j][k][l] = polynomial in s."""
+    XA, XB, XC, XD = [d.pa, d.wp], [d.pb, d.wp], [d.qc, d.wq], [d.qd, d.wq]
+    fa = [bpowlin(XA, i) for i in range(la + 1)]
+    fb = [bpowlin(XB, j) for j in range(lb + 1)]
+    fc = [bpowlin(XC, k) for k in range(lc + 1)]
+    fd = [bpowlin(XD, l) for l in range(ld + 1)]
+    fab = [[bmul(fa[i], fb[j]) for j in range(lb + 1)] for i in range(la + 1)]
+    fcd = [[bmul(fc[k], fd[l]) for l in range(ld + 1)] for k in range(lc + 1)]
+    E = iss_table(d, la + lb, lc + ld)
+    tab = []
+    for i in range(la + 1):
+        ti = []
+        for j in range(lb + 1):
+            f = fab[i][j]
+            # h[m] = sum_n f[n] * E[n][m]
+            h = []
+            for m in range(lc + ld + 1):
+                acc = [Fr(0)]
+                for n, fn in enumerate(f):
+                    if any(fn):
+                        acc = padd(acc, pmul(fn, E[n][m]))
+                h.append(acc)
+            tj = []
+            for k in range(lc + 1):
+                tk = []
+                for l in range(ld + 1):
+                    g = fcd[k][l]
+                    acc = [Fr(0)]
+                    for m, gm in enumerate(g):
+                        if any(gm):
+                            acc = padd(acc, pmul(gm, h[m]))
+                    tk.append(ptrim(acc))
+                tj.append(tk)
+            ti.append(tj)
+        tab.append(ti)
+    return tab
